@@ -50,6 +50,7 @@ def jobs(tier, seed):
         Job("c04_eval_ops", "Eval negation, mate_in/mated_in, mate-distance round trip for all scores x plies", timeout=300),
         Job("c04_history_bonus", "HistoryTable::add_bonus_for from any stored score in [0,max], any depth: clamped, no overflow", timeout=600),
         Job("c04_history_index", "HistoryTable::get / CountermoveTable::get with any 16-bit move: in range", timeout=600),
+        Job("c04_history_decay", "HistoryTable::decay divides every cell by the factor (symbolic cell)", timeout=1500, mem_gb=16),
         Job("c04_killers", "KillersTable get/try_push for all plies < 255 and any two moves", timeout=600),
         Job("c04_lmr_and_reduction", "lmr_reduction + DepthReduction for every depth, move count", timeout=300),
         Job("c04_tt_index", "get_entry_idx/get on empty tables of 1..4 slots, any key", timeout=300),
